@@ -277,6 +277,22 @@ def build_item(src, spec, idx, log):
             text = text[:pos] + to + text[pos + len(frm):]
             done = 1
         log['subs'].append({'item': what, 'from': frm, 'to': to, 'count': done})
+    # 2b. conditional hint lines: `//@?name <text>` is kept only while the function still has an identifier `name`
+    #     (a proof hint about a local must not turn its removal into an extraction failure)
+    nb = []
+    for kind, arg, lines, tline in spec.blocks:
+        keep = []
+        for l in lines:
+            mo = re.match(r'\s*//@\?([A-Za-z_][A-Za-z0-9_]*)\s(.*)$', l)
+            if mo:
+                if re.search(r'(?<![A-Za-z0-9_])%s(?![A-Za-z0-9_])' % re.escape(mo.group(1)), mask(text)):
+                    keep.append(mo.group(2))
+                else:
+                    log['subs'].append({'item': what, 'from': 'hint on `%s`' % mo.group(1), 'to': '(dropped: identifier no longer in the function)', 'count': 1})
+            else:
+                keep.append(l)
+        nb.append((kind, arg, keep, tline))
+    spec.blocks = nb
     # 3a. closure annotations (R10): typed params + ensures spliced onto the N-th closure, body verbatim.
     #     Applied from the last closure to the first so ordinals stay valid.
     cls = [b for b in spec.blocks if b[0] == 'closure']
